@@ -143,10 +143,19 @@ void sim_report_soft(void);
 // harness asks whether the step budget hang handler should call back
 typedef void (*sim_hang_cb)(char* buf, size_t n);
 void sim_set_hang_describer(sim_hang_cb cb);
+// short key appended to the class of a deadlock/hang ("hang:<key>"): what the run was waiting for
+void sim_set_hang_keyer(sim_hang_cb cb);
 
 // watch one address: callback on every atomic op on it (kind, old value read before op)
 typedef void (*sim_watch_cb)(const void* addr, int kind, int tid);
 void sim_watch(const void* addr, sim_watch_cb cb);
+
+// post-operation watch on one 32-bit atomic word (used to monitor an internal spin lock):
+// callback(kind, value before the operation, value after it, simulated thread id)
+typedef void (*sim_watch32_cb)(int kind, uint32_t before, uint32_t after, int tid);
+void sim_watch32(const void* addr, sim_watch32_cb cb);
+void sim_watch32_post(int kind, uint32_t before, uint32_t after);
+extern const volatile void* sim_watched32;
 
 // result line (JSON, one line) for a finished run
 void sim_result_line(char* buf, size_t n, const char* status, const char* cls, const char* msg);
